@@ -23,7 +23,7 @@ TWO = [[p, q] for i, p in enumerate(PAIRS) for q in PAIRS[i:]]
 # quick: every one-edge graph and the two-edge graphs that chain, oppose, double or loop; thorough: every two-edge multigraph on three nodes
 CURATED = [[(0, 1), (1, 2)], [(0, 1), (2, 1)], [(1, 0), (1, 2)], [(0, 1), (1, 0)], [(0, 1), (0, 1)], [(0, 0), (0, 1)], [(0, 2), (2, 1)], [(1, 1), (0, 1)], [(0, 1), (0, 2)]]
 GRAPHS = [[]] + ONE + (CURATED if T == 'quick' else TWO)
-THREE = [[(0, 1), (1, 2), (0, 2)], [(0, 1), (1, 2), (2, 0)], [(1, 0), (2, 1), (0, 2)], [(0, 1), (1, 2), (2, 1)], [(0, 1), (0, 1), (1, 2)]] if T != 'quick' else [[(0, 1), (1, 2), (0, 2)]]
+THREE = [[p, q, r_] for i, p in enumerate(PAIRS) for j, q in enumerate(PAIRS[i:], i) for r_ in PAIRS[j:]] if T != 'quick' else [[(0, 1), (1, 2), (0, 2)]]      # thorough: every three-edge multigraph
 GRAPHS += THREE
 ck.bounds['find_path graphs'] = f'{N_NODES} nodes (concrete distinct ids), {len(GRAPHS)} edge multisets of 0..3 edges (self-loops, parallel and opposed edges) x every direction-flag assignment; from / to symbolic u64'
 ck.declare('P1_find_path_is_a_shortest_directed_walk', f'find_path(from, to, None) with symbolic from / to on {len(GRAPHS)} edge multisets over {N_NODES} nodes x all direction flags',
@@ -104,7 +104,8 @@ def path_case(case):
 
 
 _cases = [(es, dirs) for es in GRAPHS for dirs in itertools.product((True, False), repeat=len(es))]
-_found = ck.parallel([_cases[i::8] for i in range(8)], lambda chunk: sum(path_case(c) for c in chunk), jobs=8 if T != 'quick' else 4)
+_nw = 16 if T != 'quick' else 4
+_found = ck.parallel([_cases[i::_nw] for i in range(_nw)], lambda chunk: sum(path_case(c) for c in chunk), jobs=_nw)
 if not sum(f or 0 for f in _found):
     ck.inconclusive.append('P1 vacuous: find_path never returned a path')
 ck.notes.append(f'find_path: {len(_cases)} graphs, {sum(f or 0 for f in _found)} paths returned a walk')
